@@ -1,0 +1,161 @@
+//! Verification hooks, compiled only with the `verif-hooks` feature.
+//!
+//! Nothing in here changes what arroy computes: it records some of the
+//! non-deterministic decisions taken while building (so that an external model can
+//! replay them), lets a test harness schedule the atomic operations of the tree-node id
+//! generator, and gives access to the individual distance kernels.
+use std::sync::Mutex;
+
+/// A non-deterministic decision taken by arroy, recorded for replay.
+#[derive(Debug, Clone, PartialEq)]
+pub enum Event {
+    /// The bytes of the normal returned by `Distance::create_split`.
+    Normal(Vec<u8>),
+    /// The number of leaves selected by `ImmutableLeafs::new`.
+    Batch(usize),
+    /// An event pushed by the harness itself (e.g. a draw of its random number generator).
+    Ext(u64),
+}
+
+static SINK: Mutex<Option<Vec<Event>>> = Mutex::new(None);
+
+/// Starts recording events (dropping any previous recording).
+pub fn start_recording() {
+    *SINK.lock().unwrap() = Some(Vec::new());
+}
+
+/// Stops recording and returns the events recorded so far.
+pub fn take_events() -> Vec<Event> {
+    SINK.lock().unwrap().take().unwrap_or_default()
+}
+
+/// Records an event if a recording is in progress.
+pub fn emit(event: Event) {
+    if let Some(events) = SINK.lock().unwrap().as_mut() {
+        events.push(event);
+    }
+}
+
+/// Instrumented atomics: every operation goes through a yield point first.
+pub mod atomic {
+    pub use std::sync::atomic::Ordering;
+    use std::sync::{Arc, Mutex};
+
+    /// The function called before every atomic operation with the name of the operation.
+    pub type Hook = Arc<dyn Fn(&'static str) + Send + Sync>;
+    static HOOK: Mutex<Option<Hook>> = Mutex::new(None);
+
+    /// Installs (or removes) the function called before every atomic operation.
+    pub fn set_yield_hook(hook: Option<Hook>) {
+        *HOOK.lock().unwrap() = hook;
+    }
+
+    fn yield_point(op: &'static str) {
+        let hook = HOOK.lock().unwrap().clone();
+        if let Some(hook) = hook {
+            hook(op);
+        }
+    }
+
+    macro_rules! wrap {
+        ($name:ident, $inner:ty, $val:ty) => {
+            /// Instrumented counterpart of the std atomic of the same name.
+            #[derive(Debug)]
+            pub struct $name($inner);
+            impl $name {
+                #[allow(missing_docs)]
+                pub fn new(v: $val) -> Self {
+                    Self(<$inner>::new(v))
+                }
+                #[allow(missing_docs)]
+                pub fn load(&self, o: Ordering) -> $val {
+                    yield_point(concat!(stringify!($name), "::load"));
+                    self.0.load(o)
+                }
+                #[allow(missing_docs)]
+                pub fn store(&self, v: $val, o: Ordering) {
+                    yield_point(concat!(stringify!($name), "::store"));
+                    self.0.store(v, o)
+                }
+            }
+        };
+    }
+    macro_rules! wrap_add {
+        ($name:ident, $val:ty) => {
+            impl $name {
+                #[allow(missing_docs)]
+                pub fn fetch_add(&self, v: $val, o: Ordering) -> $val {
+                    yield_point(concat!(stringify!($name), "::fetch_add"));
+                    self.0.fetch_add(v, o)
+                }
+            }
+        };
+    }
+    wrap!(AtomicU32, std::sync::atomic::AtomicU32, u32);
+    wrap!(AtomicU64, std::sync::atomic::AtomicU64, u64);
+    wrap!(AtomicBool, std::sync::atomic::AtomicBool, bool);
+    wrap_add!(AtomicU32, u32);
+    wrap_add!(AtomicU64, u64);
+}
+
+/// Direct access to each distance kernel, whatever the dispatch would select.
+/// The vectors are given as the bytes of their native-endian `f32` components.
+pub mod kernels {
+    use crate::spaces::simple;
+    use crate::unaligned_vector::UnalignedVector;
+
+    fn vector(bytes: &[u8]) -> &UnalignedVector<f32> {
+        assert_eq!(bytes.len() % 4, 0);
+        UnalignedVector::from_bytes_unchecked(bytes)
+    }
+
+    /// The dispatching dot product.
+    pub fn dot(u: &[u8], v: &[u8]) -> f32 {
+        simple::dot_product(vector(u), vector(v))
+    }
+
+    /// The dispatching squared euclidean distance.
+    pub fn euclid(u: &[u8], v: &[u8]) -> f32 {
+        simple::euclidean_distance(vector(u), vector(v))
+    }
+
+    /// The plain loop.
+    pub fn dot_scalar(u: &[u8], v: &[u8]) -> f32 {
+        simple::dot_product_non_optimized(vector(u), vector(v))
+    }
+
+    /// The plain loop.
+    pub fn euclid_scalar(u: &[u8], v: &[u8]) -> f32 {
+        simple::euclidean_distance_non_optimized(vector(u), vector(v))
+    }
+
+    /// The SSE kernel, if the host has SSE.
+    #[cfg(target_arch = "x86_64")]
+    pub fn dot_sse(u: &[u8], v: &[u8]) -> Option<f32> {
+        is_x86_feature_detected!("sse")
+            .then(|| unsafe { crate::spaces::verif_exports::dot_similarity_sse(vector(u), vector(v)) })
+    }
+
+    /// The SSE kernel, if the host has SSE.
+    #[cfg(target_arch = "x86_64")]
+    pub fn euclid_sse(u: &[u8], v: &[u8]) -> Option<f32> {
+        is_x86_feature_detected!("sse").then(|| unsafe {
+            crate::spaces::verif_exports::euclid_similarity_sse(vector(u), vector(v))
+        })
+    }
+
+    /// The AVX+FMA kernel, if the host has both.
+    #[cfg(target_arch = "x86_64")]
+    pub fn dot_avx(u: &[u8], v: &[u8]) -> Option<f32> {
+        (is_x86_feature_detected!("avx") && is_x86_feature_detected!("fma"))
+            .then(|| unsafe { crate::spaces::verif_exports::dot_similarity_avx(vector(u), vector(v)) })
+    }
+
+    /// The AVX+FMA kernel, if the host has both.
+    #[cfg(target_arch = "x86_64")]
+    pub fn euclid_avx(u: &[u8], v: &[u8]) -> Option<f32> {
+        (is_x86_feature_detected!("avx") && is_x86_feature_detected!("fma")).then(|| unsafe {
+            crate::spaces::verif_exports::euclid_similarity_avx(vector(u), vector(v))
+        })
+    }
+}
